@@ -252,6 +252,12 @@ PROPS = {
         families=[("core", NONE, 150), ("time", NONE, 100)],
         projection="C02", monitors=["C02"],
     ),
+    "C03": dict(
+        props_file="Props/C03.v",
+        families=[("fault", NONE, 150), ("multi", NONE, 60), ("core", NONE, 100), ("hostile", NONE, 40)],
+        projection="C03", monitors=["C03"],
+        level_note="Reply integrity and 'the next poll after the target has ended finishes the operation' are proved for every reachable state; that tokio actually wakes the asker (oneshot/channel-close wakers) is runtime behaviour tied only by the correspondence runs to quiescence; ask_join's spawned task and JoinHandle are user code + tokio and are not modelled (partial for the ask_join clause).",
+    ),
     "C07": dict(
         props_file="Props/C07.v",
         families=[("core", NONE, 250), ("hostile", NONE, 50)],
